@@ -286,8 +286,9 @@ PROPS = {
     },
     'C17': {
         'props_file': 'props/C17.v',
-        'domains': [{'name': 'loc-cache', 'quick': 150, 'thorough': 6000, 'thorough_shards': 10}],
-        'spec_ops': ['addfact', 'addrule', 'remfact', 'remrule', 'getfact', 'getrule', 'enablerule', 'clear', 'setparents', 'getparents', 'size', 'search', 'event', 'existence-check'],
+        'domains': [{'name': 'loc-cache', 'quick': 150, 'thorough': 6000, 'thorough_shards': 10},
+                    {'name': 'sys-steer', 'ok_is_spec': True, 'quick': 400, 'thorough': 20000, 'thorough_shards': 10}],
+        'spec_ops': ['addfact', 'addrule', 'remfact', 'remrule', 'getfact', 'getrule', 'enablerule', 'clear', 'setparents', 'getparents', 'size', 'search', 'event', 'existence-check', 'single-load', 'linearizable', 'no-crash'],
         'corr': 'corr.loc (CorrLoc.check_loc) on the cache profile: every request is sent to three sys.Systems (TTL forever / never / 1 ms; same CheckExistence and state kind) and compared; the "forever" observations are replayed through the location model (hooks installed); ghost-location probes for the existence check; a stress phase counts OpenLocation calls for N concurrent first requests',
         'rule': 'loc-cache: histories of 20-45 requests over 1-2 locations through the sys.System API (facts, rules, events via ProcessEvent, parents, clear, size), each executed on three Systems that differ only in LocationTTL, '
                 'with a 2 ms pause so that 1 ms entries expire between requests; in half of the cases existence checking is on (locations created first; a ghost location is probed every 7 requests and must stay absent from cache and storage); '
